@@ -672,5 +672,19 @@ pub fn parametric_grammars() -> Vec<PGram> {
         let bnf = Bnf { nts: vec![start_alt(1, 0), alts] };
         out.push(PGram { name: "saturate", lark: print_pgram(&["start", "r"], &bnf, 0), bnf });
     }
+    // 8. unguarded saturating incr on fields that do not start at bit 0 (a mid-word field next to an observed
+    // neighbour bit, and the top field of the word)
+    {
+        let alts = vec![
+            Alt { cond: Cond::True, syms: rec(b'a', PExpr::Incr(2, 4)) },
+            Alt { cond: Cond::True, syms: rec(b'b', PExpr::Incr(62, 64)) },
+            Alt { cond: Cond::BitSet(4), syms: t("c") },
+            Alt { cond: Cond::IsOnes(2, 4), syms: t("d") },
+            Alt { cond: Cond::IsOnes(62, 64), syms: t("e") },
+            Alt { cond: Cond::IsZeros(0, 2), syms: t("x") },
+        ];
+        let bnf = Bnf { nts: vec![start_alt(1, 0), alts] };
+        out.push(PGram { name: "saturate-high-fields", lark: print_pgram(&["start", "r"], &bnf, 0), bnf });
+    }
     out
 }
